@@ -21,9 +21,10 @@ ENTRY = dict(
                 "law parse(print j) = canon j taken as a hypothesis of the theorems (Codec.Lawful)"),
     technique="Lean 4 proof (fact-parametric dichotomies) + model/implementation differential + predicate on implementation outputs",
     lean_modules=["Bpmn.Props.C16", "Bpmn.Props.C16Current"],
-    families=["c16"],
+    families=["c16", "c16decl"],
     exhaustive=False,
-    rule=("fn: for every generated Go value (boundary values of int..int64 / uint..uint64, ~200 quick / ~4000 thorough "
+    rule=("c16decl: 60 (thorough 1200) seeded processes declaring 1..4 data objects, each with or without an olive:dataObjectBody of keys of its own, a third of them beside an embedded sub-process that declares one more; two instances, the second with one object replaced through WithDataObjects; what the task is handed (GetDataObjects) and what CloneItems holds at the end must be, per instance and per object, exactly that object's own body / {} / the replacement. "
+          "fn: for every generated Go value (boundary values of int..int64 / uint..uint64, ~200 quick / ~4000 thorough "
           "floats incl. >6 decimals, large exponents, subnormals, float32; unicode / numeric / JSON-looking strings; bools; "
           "nil; pointers, nil pointers, *schema.Value, nil *schema.Value, chan/func/complex/uintptr; slices, arrays, maps, "
           "structs, nesting depth up to 40 (400 thorough); seeded random trees) x every declared item type (inferred, "
